@@ -11,3 +11,6 @@ open Dashu.Props.C15
 #print axioms ubig_ibig_forms_agree
 #print axioms signed_div_ibig_fits
 #print axioms unsigned_div_negative_ibig_counterexample
+#print axioms ibig_rem_unsigned_exact
+#print axioms unsigned_div_ibig_exact
+#print axioms signed_div_ibig_exact
